@@ -58,11 +58,11 @@ int main ()
     O.put (Jones<double>(a*c)); O.put (Jones<double>(c*a)); O.put (Jones<double>(a/c));
     O.put (Jones<double>(a*cd)); O.put (Jones<double>(cd*a)); O.put (Jones<double>(a/cd)); };
   // quaternions
-  OP("mp.quat") { Quaternion<float,U> a (A.f(),A.f(),A.f(),A.f()); Quaternion<double,U> b (A.d(),A.d(),A.d(),A.d()); Quaternion<double,U> ad (a);
+  OP("mp.quat") { float a0=A.f(), a1=A.f(), a2=A.f(), a3=A.f(); double b0=A.d(), b1=A.d(), b2=A.d(), b3=A.d(); Quaternion<float,U> a (a0,a1,a2,a3); Quaternion<double,U> b (b0,b1,b2,b3); Quaternion<double,U> ad (a);
     O.put (Quaternion<double,U>(a+b)); O.put (Quaternion<double,U>(a-b)); O.put (Quaternion<double,U>(a*b)); O.put (Quaternion<double,U>(b*a));
     O.put (Quaternion<double,U>(ad+b)); O.put (Quaternion<double,U>(ad-b)); O.put (Quaternion<double,U>(ad*b)); O.put (Quaternion<double,U>(b*ad)); };
-  OP("mp.biquat") { Quaternion<std::complex<float>,H> a (A.cf(),A.cf(),A.cf(),A.cf());
-    Quaternion<std::complex<double>,H> b (A.cd(),A.cd(),A.cd(),A.cd()); Quaternion<std::complex<double>,H> ad (a);
+  OP("mp.biquat") { std::complex<float> a0=A.cf(), a1=A.cf(), a2=A.cf(), a3=A.cf(); std::complex<double> b0=A.cd(), b1=A.cd(), b2=A.cd(), b3=A.cd();
+    Quaternion<std::complex<float>,H> a (a0,a1,a2,a3); Quaternion<std::complex<double>,H> b (b0,b1,b2,b3); Quaternion<std::complex<double>,H> ad (a);
     O.put (Quaternion<std::complex<double>,H>(a*b)); O.put (Quaternion<std::complex<double>,H>(b*a));
     O.put (Quaternion<std::complex<double>,H>(ad*b)); O.put (Quaternion<std::complex<double>,H>(b*ad)); };
   // Minkowski forms
@@ -83,8 +83,8 @@ int main ()
     O.put (Matrix<4,6,double>(direct(a,b))); O.put (Matrix<4,6,double>(direct(b,a)));
     O.put (Matrix<4,6,double>(direct(ad,b))); O.put (Matrix<4,6,double>(direct(b,ad))); };
   // Jones<double> * Quaternion<float>, transform of Stokes<double> by Jones<float>
-  OP("mp.pauli") { Jones<double> j = rdJ<double>(A); Quaternion<float,H> q (A.f(),A.f(),A.f(),A.f()); Quaternion<double,H> qd (q);
-    Stokes<double> s (A.d(),A.d(),A.d(),A.d()); Jones<float> jf = rdJ<float>(A); Jones<double> jfd (jf);
+  OP("mp.pauli") { Jones<double> j = rdJ<double>(A); float q0=A.f(), q1=A.f(), q2=A.f(), q3=A.f(); Quaternion<float,H> q (q0,q1,q2,q3); Quaternion<double,H> qd (q);
+    double s0=A.d(), s1=A.d(), s2=A.d(), s3=A.d(); Stokes<double> s (s0,s1,s2,s3); Jones<float> jf = rdJ<float>(A); Jones<double> jfd (jf);
     // (Jones<double> * Quaternion<float> converts the quaternion to a Jones<float> first, i.e. rounds in single
     //  precision by design, so it is not a promotion-consistency case)
     O.put (Stokes<double>(transform (s, jf)));
